@@ -85,6 +85,7 @@ class Session:
         # The game redirects the daemon's standard error and never reads it (mod/PyTrapIC.cs:257): the pipe
         # takes `stderr_capacity` bytes and then every further write blocks for good.  None = unbounded sink.
         self.stderr_capacity = sess.get("stderr_capacity")
+        self.streams = {}  # role -> the stream objects standing for fd 0/1/2 (filled by make_streams)
 
     # -- bookkeeping --------------------------------------------------------------------------
     def _violate(self, cls, msg):
@@ -117,23 +118,29 @@ class Session:
 
     def note_line_handed(self, text):
         """the daemon's text layer returned one more line to the daemon"""
-        if text == "":
+        if not text:
             return
         idx = self.handed
         self.handed += 1
         self.w.begin_request(idx, self.lines[idx].get("helpers", []) if idx < len(self.lines) else [])
 
     # -- the daemon reads ---------------------------------------------------------------------
+    def _take(self, cap):
+        n = self._chunk(cap)
+        data = bytes(self.inpipe[:n])
+        del self.inpipe[:n]
+        self.w.event("daemon", "read", len(self.delivered), n)
+        self.delivered += data
+        return data
+
     def readinto(self, buf):
+        """a blocking read(0): bytes, EOF, or a scheduling point (the client acts, other threads run, or nothing
+        can ever happen again: deadlock)"""
         while True:
             if self.inpipe:
-                n = self._chunk(len(buf))
-                data = bytes(self.inpipe[:n])
-                del self.inpipe[:n]
-                buf[:n] = data
-                self.w.event("daemon", "read", len(self.delivered), n)
-                self.delivered += data
-                return n
+                data = self._take(len(buf))
+                buf[:len(data)] = data
+                return len(data)
             if self.closed:
                 self.eof_reads += 1
                 self.w.event("daemon", "read-eof", self.eof_reads)
@@ -143,19 +150,66 @@ class Session:
                 return 0
             # the daemon is about to block on an empty request pipe
             self.blocks += 1
-            self._at_block()
-            if not self._client_step():
-                lo, hi, _ = self.expected_reply_bounds()
-                got = len(self.reply_lines()[0])
-                self.w.event("daemon", "deadlock", lo, got)
-                if self.violation is None:
-                    what = "deadlock: the daemon waits for input and the client waits for a reply"
-                    if self.stolen:
-                        what += " (%d request bytes were consumed by a leaked helper process that shares the daemon's stdin)" % self.stolen
-                    self._violate("unanswered", "%s; %d request lines sent, %d reply lines on the pipe"
-                                  % (what, sum(1 for l in self.lines[:self.next_line] if classify_line(line_bytes(l), self.errors) == "request"), got))
-                raise SimDeadlock("deadlock")
-            self._thief_race()
+            self.w.sched.block(on="stdin", timeout=None, stdin=True)
+
+    def poll_stdin(self):
+        """would a read(0) return without blocking?"""
+        return bool(self.inpipe) or self.closed
+
+    def read_nonblocking(self, cap):
+        """for event-loop transports: bytes, b"" at EOF, None if nothing is there"""
+        if self.inpipe:
+            return self._take(cap)
+        if self.closed:
+            self.eof_reads += 1
+            self.w.event("daemon", "read-eof", self.eof_reads)
+            return b""
+        return None
+
+    def stream_role(self, obj):
+        for role, objs in self.streams.items():
+            if any(obj is o for o in objs):
+                return role
+        return None
+
+    # -- called by the scheduler ------------------------------------------------------------------
+    def _sync_replies(self):
+        lines, _ = self.reply_lines()
+        newly = len(lines) - self.client_seen_replies
+        if newly > 0:
+            self.client_seen_replies = len(lines)
+            self.expecting = max(0, self.expecting - newly)
+
+    def client_ready(self):
+        """can the client do something now (send the next request(s), EXIT, or close)?"""
+        if self.violation is not None or self.done_sending:
+            return False  # decided, or nothing left to send
+        self._sync_replies()
+        return self.expecting < (1 if self.mode == "lockstep" else self.window)
+
+    def client_act(self):
+        self._sync_replies()
+        if self.mode == "lockstep":
+            self._send_next(1)
+        else:
+            self._send_next(self.window - self.expecting)
+        self._thief_race()
+
+    def at_idle(self):
+        """every thread of the daemon is blocked and at least one waits for input"""
+        self._at_block()
+
+    def declare_deadlock(self):
+        lo, hi, _ = self.expected_reply_bounds()
+        got = len(self.reply_lines()[0])
+        self.w.event("daemon", "deadlock", lo, got)
+        if self.violation is None:
+            what = "deadlock: the daemon waits for input and the client waits for a reply"
+            if self.stolen:
+                what += " (%d request bytes were consumed by a leaked helper process that shares the daemon's stdin)" % self.stolen
+            self._violate("unanswered", "%s; %d request lines sent, %d reply lines on the pipe"
+                          % (what, sum(1 for l in self.lines[:self.next_line] if classify_line(line_bytes(l), self.errors) == "request"), got))
+        raise SimDeadlock("deadlock")
 
     def _chunk(self, cap):
         avail = len(self.inpipe)
@@ -221,23 +275,6 @@ class Session:
             self._violate("count", "%d reply lines on the pipe for at most %d request lines read" % (got, hi))
 
     # -- the client acts ----------------------------------------------------------------------
-    def _client_step(self):
-        """returns True if the client put bytes into the request pipe or closed it"""
-        lines, _ = self.reply_lines()
-        newly = len(lines) - self.client_seen_replies
-        if newly > 0:
-            self.client_seen_replies = len(lines)
-            self.expecting = max(0, self.expecting - newly)
-        if self.violation is not None:
-            return False  # the run is decided; stop feeding
-        if self.mode == "lockstep":
-            if self.expecting > 0:
-                return False
-            return self._send_next(1)
-        if self.expecting >= self.window:
-            return False
-        return self._send_next(self.window - self.expecting)
-
     def _send_next(self, room):
         progressed = False
         while room > 0:
@@ -376,17 +413,41 @@ class SimStdin(io.TextIOWrapper):
         return s
 
 
+class SimStdinBuffer(io.BufferedReader):
+    """the real binary layer (`sys.stdin.buffer`); notes lines handed out when the daemon reads bytes lines from it
+    directly.  The text layer above reads it with read1()/read(), never with readline(), so nothing is counted twice."""
+
+    _session = None
+
+    def readline(self, *a):
+        b = super().readline(*a)
+        if b and self._session is not None:
+            self._session.note_line_handed(b)
+        return b
+
+    def __next__(self):
+        b = super().__next__()
+        if self._session is not None:
+            self._session.note_line_handed(b)
+        return b
+
+
 def make_streams(session, stdin_errors="surrogateescape"):
     """what CPython builds for fds 0/1/2 when they are pipes: BufferedReader/Writer + TextIOWrapper,
     stdout block-buffered, stderr line-buffered with backslashreplace"""
     rin = SimRawIn(session)
-    stdin = SimStdin(io.BufferedReader(rin, 8192), encoding="utf-8", errors=stdin_errors, newline=None)
+    buf = SimStdinBuffer(rin, 8192)
+    buf._session = session
+    stdin = SimStdin(buf, encoding="utf-8", errors=stdin_errors, newline=None)
     stdin._session = session
     rout = SimRawOut(session.write_out)
     stdout = io.TextIOWrapper(io.BufferedWriter(rout, 8192), encoding="utf-8", errors="strict", newline=None,
                               line_buffering=False, write_through=False)
 
     rerr = SimRawOut(session.write_err)
+    session.streams["stdin"] = [stdin, stdin.buffer, rin]
+    session.streams["stdout"] = [stdout, stdout.buffer, rout]
     stderr = io.TextIOWrapper(io.BufferedWriter(rerr, 8192), encoding="utf-8", errors="backslashreplace",
                               newline=None, line_buffering=True, write_through=False)
+    session.streams["stderr"] = [stderr, stderr.buffer, rerr]
     return stdin, stdout, stderr
